@@ -222,6 +222,11 @@ int32_t matrixSslNewClientSession(ssl_t **ssl, const sslKeys_t *keys,
         }
         rc = Strlen(expectedName);
         lssl->expectedName = psMalloc(lssl->sPool, rc + 1);
+        if (lssl->expectedName == NULL)
+        {
+            matrixSslDeleteSession(lssl);
+            return PS_MEM_FAIL;
+        }
         Strcpy(lssl->expectedName, expectedName);
         Memcpy(&lssl->validateCertsOpts,
             &options->validateCertsOpts,
@@ -436,6 +441,13 @@ void matrixSslSetSessionIdEapFast(sslSessionId_t *sess,
     /** @note, sess->master_secret must go through tprf() before being used */
     Memcpy(sess->masterSecret, pac_key, EAP_FAST_PAC_KEY_LEN);
     sess->sessionTicket = psMalloc(sess->pool, pac_opaque_len);
+    if (sess->sessionTicket == NULL)
+    {
+        /* No PAC installed: fall back to the default ticket behaviour. */
+        sess->sessionTicketState = SESS_TICKET_STATE_INIT;
+        sess->sessionTicketLen = 0;
+        return;
+    }
     Memcpy(sess->sessionTicket, pac_opaque, pac_opaque_len);
     sess->sessionTicketLen = pac_opaque_len;
 }
